@@ -73,16 +73,16 @@ end Spawn
 
 namespace Spawn
 
-/-- invariant of the pre-fork part: nothing closed, no process yet, everything touched is owned,
-    every descriptor obtained is owned, everything recorded as marked had its close-on-exec bit set,
+/-- invariant of the pre-fork part: nothing closed but what was released by design, no process yet, everything
+    touched is owned (or was, and is released), every descriptor obtained is owned or released, everything recorded as marked had its close-on-exec bit set,
     and the parent end of every completely set-up stream pipe is marked -/
 structure AInv (c : Cfg) (s : AState) : Prop where
-  noClose : closedBy s.calls = []
+  noClose : closedBy s.calls = s.released
   noFork : hasFork s.calls = false
   noWait : hasWait s.calls = false
-  touchedOwned : ∀ f ∈ touched s.calls, f ∈ s.owned
-  files : ∀ f ∈ cfgFiles c, f ∈ s.owned
-  gotOwned : ∀ f ∈ s.got, f ∈ s.owned
+  touchedOwned : ∀ f ∈ touched s.calls, f ∈ s.owned ∨ f ∈ s.released
+  files : ∀ f ∈ cfgFiles c, f ∈ s.owned ∨ f ∈ s.released
+  gotOwned : ∀ f ∈ s.got, f ∈ s.owned ∨ f ∈ s.released
   status : ∀ f ∈ pipeFds s.status, f ∈ s.got
   pin : ∀ f ∈ pipeFds s.pipes.pin, f ∈ s.got
   pout : ∀ f ∈ pipeFds s.pipes.pout, f ∈ s.got
@@ -92,15 +92,18 @@ structure AInv (c : Cfg) (s : AState) : Prop where
   mOut : ∀ r w, s.pipes.pout = some (r, w) → r ∈ s.marked
   mErr : ∀ r w, s.pipes.perr = some (r, w) → r ∈ s.marked
   ownedFrom : ∀ f ∈ s.owned, f ∈ cfgFiles c ∨ f ∈ s.got
+  releasedGot : ∀ f ∈ s.released, f ∈ s.got
+  lowGot : ∀ l, s.low = some l → l ∈ s.got
 
 theorem init_ainv (c : Cfg) : AInv c { owned := cfgFiles c } := by
   constructor <;> simp [closedBy, hasFork, hasWait, touched, pipeFds, cloexecd]
 
-theorem cloexec_stage_ainv (c : Cfg) (s : AState) (fd : Nat) (rs : List SResp) (h : AInv c s) (hfd : fd ∈ s.owned) :
+theorem cloexec_stage_ainv (c : Cfg) (s : AState) (fd : Nat) (rs : List SResp) (h : AInv c s)
+    (hfd : fd ∈ s.owned ∨ fd ∈ s.released) :
     AInv c { s with calls := s.calls ++ (cloexec fd rs).1,
                     marked := s.marked ++ (if (cloexec fd rs).2.1 = none then [fd] else []) } := by
   obtain ⟨c1, c2, c3, c4, c5⟩ := cloexec_spec fd rs
-  obtain ⟨h1, h2, h3, h4, h5, h6, h7, h8, h9, h10, h11, h12, h13, h14, h15⟩ := h
+  obtain ⟨h1, h2, h3, h4, h5, h6, h7, h8, h9, h10, h11, h12, h13, h14, h15, h16, h17⟩ := h
   constructor <;> simp only [closedBy_append, hasFork_append, hasWait_append, touched_append, cloexecd_append,
     List.mem_append, h1, h2, h3, c1, c2, c3, List.append_nil, Bool.or_self] <;> (try assumption)
   · rintro f (hf | hf)
@@ -121,17 +124,24 @@ theorem applyStream_ainv (c : Cfg) (i : Nat) (s : AState) (cs : List SCall) (po 
     (p4 : ∀ f ∈ touched cs, f ∈ pipeFds po)
     (p5 : e = none → ∃ r w, po = some (r, w) ∧ cloexecd cs = [if (i == 0) = true then w else r]) :
     AInv c (applyStream i s (cs, po, e, rs1)).s := by
-  obtain ⟨h1, h2, h3, h4, h5, h6, h7, h8, h9, h10, h11, h12, h13, h14, h15⟩ := h
+  obtain ⟨h1, h2, h3, h4, h5, h6, h7, h8, h9, h10, h11, h12, h13, h14, h15, h16, h17⟩ := h
   unfold applyStream
   constructor <;> simp only [closedBy_append, hasFork_append, hasWait_append, touched_append, cloexecd_append,
     List.mem_append, h1, h2, h3, p1, p2, p3, List.append_nil, Bool.or_self] <;> (try assumption)
   · rintro f (hf | hf)
-    · exact Or.inl (h4 f hf)
-    · exact Or.inr (p4 f hf)
-  · intro f hf; exact Or.inl (h5 f hf)
+    · rcases h4 f hf with h | h
+      · exact Or.inl (Or.inl h)
+      · exact Or.inr h
+    · exact Or.inl (Or.inr (p4 f hf))
+  · intro f hf
+    rcases h5 f hf with h | h
+    · exact Or.inl (Or.inl h)
+    · exact Or.inr h
   · rintro f (hf | hf)
-    · exact Or.inl (h6 f hf)
-    · exact Or.inr hf
+    · rcases h6 f hf with h | h
+      · exact Or.inl (Or.inl h)
+      · exact Or.inr h
+    · exact Or.inl (Or.inr hf)
   · intro f hf; exact Or.inl (h7 f hf)
   · intro f hf
     split at hf
@@ -189,30 +199,39 @@ theorem applyStream_ainv (c : Cfg) (i : Nat) (s : AState) (cs : List SCall) (po 
       · exact Or.inl h
       · exact Or.inr (Or.inl h)
     · exact Or.inr (Or.inr hf)
+  · intro f hf; exact Or.inl (h16 f hf)
+  · intro l hl; exact Or.inl (h17 l hl)
 
 theorem ainv_add_quiet (c : Cfg) (s : AState) (cs : List SCall) (h : AInv c s)
     (p1 : closedBy cs = []) (p2 : hasFork cs = false) (p3 : hasWait cs = false) (p4 : touched cs = []) :
     AInv c { s with calls := s.calls ++ cs } := by
-  obtain ⟨h1, h2, h3, h4, h5, h6, h7, h8, h9, h10, h11, h12, h13, h14, h15⟩ := h
+  obtain ⟨h1, h2, h3, h4, h5, h6, h7, h8, h9, h10, h11, h12, h13, h14, h15, h16, h17⟩ := h
   constructor <;> simp only [closedBy_append, hasFork_append, hasWait_append, touched_append, cloexecd_append,
     List.mem_append, h1, h2, h3, p1, p2, p3, p4, List.append_nil, Bool.or_self] <;> (try assumption)
   intro f hf; exact Or.inl (h11 f hf)
 
 theorem ainv_status (c : Cfg) (s : AState) (sr sw : Nat) (h : AInv c s) :
     AInv c { s with calls := s.calls ++ [.pipe], owned := s.owned ++ [sr, sw], got := s.got ++ [sr, sw], status := some (sr, sw) } := by
-  obtain ⟨h1, h2, h3, h4, h5, h6, h7, h8, h9, h10, h11, h12, h13, h14, h15⟩ := h
+  obtain ⟨h1, h2, h3, h4, h5, h6, h7, h8, h9, h10, h11, h12, h13, h14, h15, h16, h17⟩ := h
   constructor <;> simp only [closedBy_append, hasFork_append, hasWait_append, touched_append, cloexecd_append,
     List.mem_append, h1, h2, h3, List.append_nil, Bool.or_self] <;> (try assumption)
   · simp [closedBy]
   · simp [hasFork]
   · simp [hasWait]
   · rintro f (hf | hf)
-    · exact Or.inl (h4 f hf)
+    · rcases h4 f hf with h | h
+      · exact Or.inl (Or.inl h)
+      · exact Or.inr h
     · simp [touched] at hf
-  · intro f hf; exact Or.inl (h5 f hf)
+  · intro f hf
+    rcases h5 f hf with h | h
+    · exact Or.inl (Or.inl h)
+    · exact Or.inr h
   · rintro f (hf | hf)
-    · exact Or.inl (h6 f hf)
-    · exact Or.inr hf
+    · rcases h6 f hf with h | h
+      · exact Or.inl (Or.inl h)
+      · exact Or.inr h
+    · exact Or.inl (Or.inr hf)
   · intro f hf; right; simpa [pipeFds] using hf
   · intro f hf; exact Or.inl (h8 f hf)
   · intro f hf; exact Or.inl (h9 f hf)
@@ -223,6 +242,85 @@ theorem ainv_status (c : Cfg) (s : AState) (sr sw : Nat) (h : AInv c s) :
       · exact Or.inl h
       · exact Or.inr (Or.inl h)
     · exact Or.inr (Or.inr hf)
+  · intro f hf; exact Or.inl (h16 f hf)
+  · intro l hl; exact Or.inl (h17 l hl)
+
+
+theorem mem_erase_or_eq (f l : Nat) (xs : List Nat) (h : f ∈ xs) : f ∈ xs.erase l ∨ f = l := by
+  by_cases hfl : f = l
+  · exact Or.inr hfl
+  · exact Or.inl ((List.mem_erase_of_ne hfl).mpr h)
+
+/-- the status write end is moved above 2: a new descriptor is obtained and owned, the original stays owned -/
+theorem ainv_relocate (c : Cfg) (s : AState) (sr sw n : Nat) (h : AInv c s) (hs : s.status = some (sr, sw)) :
+    AInv c { s with calls := s.calls ++ [.dupfd sw], owned := s.owned ++ [n], got := s.got ++ [n],
+                    status := some (sr, n), low := some sw } := by
+  obtain ⟨h1, h2, h3, h4, h5, h6, h7, h8, h9, h10, h11, h12, h13, h14, h15, h16, h17⟩ := h
+  constructor <;> simp only [closedBy_append, hasFork_append, hasWait_append, touched_append, cloexecd_append,
+    List.mem_append, h1, h2, h3, List.append_nil, Bool.or_self] <;> (try assumption)
+  · simp [closedBy]
+  · simp [hasFork]
+  · simp [hasWait]
+  · rintro f (hf | hf)
+    · rcases h4 f hf with h | h
+      · exact Or.inl (Or.inl h)
+      · exact Or.inr h
+    · simp [touched] at hf
+  · intro f hf
+    rcases h5 f hf with h | h
+    · exact Or.inl (Or.inl h)
+    · exact Or.inr h
+  · rintro f (hf | hf)
+    · rcases h6 f hf with h | h
+      · exact Or.inl (Or.inl h)
+      · exact Or.inr h
+    · exact Or.inl (Or.inr hf)
+  · intro f hf
+    simp only [pipeFds, List.mem_cons, List.not_mem_nil, or_false] at hf
+    rcases hf with rfl | rfl
+    · exact Or.inl (h7 f (by simp [hs, pipeFds]))
+    · right; simp
+  · intro f hf; exact Or.inl (h8 f hf)
+  · intro f hf; exact Or.inl (h9 f hf)
+  · intro f hf; exact Or.inl (h10 f hf)
+  · intro f hf; exact Or.inl (h11 f hf)
+  · rintro f (hf | hf)
+    · rcases h15 f hf with h | h
+      · exact Or.inl h
+      · exact Or.inr (Or.inl h)
+    · exact Or.inr (Or.inr hf)
+  · intro f hf; exact Or.inl (h16 f hf)
+  · intro l hl
+    simp only [Option.some.injEq] at hl; subst hl
+    exact Or.inl (h7 _ (by simp [hs, pipeFds]))
+
+/-- the original of the moved write end is closed again: it leaves `owned` and enters `released` -/
+theorem ainv_release (c : Cfg) (s : AState) (l : Nat) (h : AInv c s) (hl : s.low = some l) :
+    AInv c { s with calls := s.calls ++ [.close l], owned := s.owned.erase l, released := s.released ++ [l], low := none } := by
+  obtain ⟨h1, h2, h3, h4, h5, h6, h7, h8, h9, h10, h11, h12, h13, h14, h15, h16, h17⟩ := h
+  have key : ∀ f, (f ∈ s.owned ∨ f ∈ s.released) → (f ∈ s.owned.erase l ∨ (f ∈ s.released ∨ f ∈ [l])) := by
+    rintro f (hf | hf)
+    · rcases mem_erase_or_eq f l s.owned hf with h | h
+      · exact Or.inl h
+      · exact Or.inr (Or.inr (by simp [h]))
+    · exact Or.inr (Or.inl hf)
+  constructor <;> simp only [closedBy_append, hasFork_append, hasWait_append, touched_append, cloexecd_append,
+    List.mem_append, h1, h2, h3, List.append_nil, Bool.or_self] <;> (try assumption)
+  · simp [closedBy]
+  · simp [hasFork]
+  · simp [hasWait]
+  · rintro f (hf | hf)
+    · exact key f (h4 f hf)
+    · simp only [touched, List.filterMap_cons, List.filterMap_nil] at hf
+      exact Or.inr (Or.inr hf)
+  · intro f hf; exact key f (h5 f hf)
+  · intro f hf; exact key f (h6 f hf)
+  · intro f hf; exact Or.inl (h11 f hf)
+  · intro f hf; exact h15 f (List.mem_of_mem_erase hf)
+  · rintro f (hf | hf)
+    · exact h16 f hf
+    · simp only [List.mem_singleton] at hf; subst hf; exact h17 _ hl
+  · intro l' hl'; simp at hl'
 
 /-- every step before the fork preserves the invariant, whether it succeeds or fails -/
 theorem acquire_ainv (c : Cfg) (a : Acq) (ha : ∀ (_ : a = .forkStep), False) (s : AState) (rs : List SResp) (h : AInv c s) :
@@ -238,6 +336,26 @@ theorem acquire_ainv (c : Cfg) (a : Acq) (ha : ∀ (_ : a = .forkStep), False) (
       · exact ainv_add_quiet c s [.pipe] h rfl rfl rfl rfl
       · exact ainv_status c s _ _ h
       · exact ainv_add_quiet c s [.pipe] h rfl rfl rfl rfl
+  | relocateStatusW =>
+    simp only [acquire]
+    split
+    · exact h
+    · rename_i sr sw hs
+      split
+      · split
+        · exact ainv_add_quiet c s [.dupfd sw] h rfl rfl rfl rfl
+        · exact ainv_add_quiet c s [.dupfd sw] h rfl rfl rfl rfl
+        · split
+          · exact ainv_add_quiet c s [.dupfd sw] h rfl rfl rfl rfl
+          · exact ainv_relocate c s sr sw _ h hs
+        · exact ainv_add_quiet c s [.dupfd sw] h rfl rfl rfl rfl
+      · exact h
+  | releaseLow =>
+    simp only [acquire]
+    split
+    · exact h
+    · rename_i l hl
+      exact ainv_release c s l h hl
   | cloexecStatusR =>
     simp only [acquire]
     split
@@ -277,6 +395,8 @@ theorem acquire_pipesOK (c : Cfg) (a : Acq) (ha : StageOK c a) (s : AState) (rs 
     PipesOK c (acquire a s rs).s := by
   cases a with
   | statusPipe => simp only [acquire]; (repeat' split) <;> exact h
+  | relocateStatusW => simp only [acquire]; (repeat' split) <;> exact h
+  | releaseLow => simp only [acquire]; split <;> exact h
   | cloexecStatusR => simp only [acquire]; split <;> exact h
   | cloexecStatusW => simp only [acquire]; split <;> exact h
   | check ok r => exact h
@@ -289,13 +409,13 @@ theorem acquire_pipesOK (c : Cfg) (a : Acq) (ha : StageOK c a) (s : AState) (rs 
 theorem stagesOf_pre (c : Cfg) : ∃ pre, stagesOf c = pre ++ [.forkStep] ∧ (∀ a ∈ pre, StageOK c a) ∧
     (c.nul = true → Acq.check false (.err EINVAL) ∈ pre) ∧
     ((c.sin = .merge ∨ (c.sout = .merge ∧ c.serr = .merge)) → Acq.check false .logic ∈ pre) := by
-  refine ⟨[.statusPipe, .cloexecStatusR, .cloexecStatusW,
+  refine ⟨[.statusPipe, .relocateStatusW, .cloexecStatusR, .cloexecStatusW,
      .check (!(c.sout = .merge && c.serr = .merge)) .logic, .check (!(c.sin = .merge)) .logic] ++
     (if c.sin = .pipe then [.streamPipe 0] else []) ++ (if c.sout = .pipe then [.streamPipe 1] else []) ++
-    (if c.serr = .pipe then [.streamPipe 2] else []) ++ [.check (!c.nul) (.err EINVAL)], by simp [stagesOf], ?_, ?_, ?_⟩
+    (if c.serr = .pipe then [.streamPipe 2] else []) ++ [.releaseLow, .check (!c.nul) (.err EINVAL)], by simp [stagesOf], ?_, ?_, ?_⟩
   · intro a ha
     simp only [List.mem_append, List.mem_cons, List.not_mem_nil, or_false, List.mem_ite_nil_right, List.mem_singleton] at ha
-    rcases ha with ((((rfl | rfl | rfl | rfl | rfl) | ⟨h, rfl⟩) | ⟨h, rfl⟩) | ⟨h, rfl⟩) | rfl <;>
+    rcases ha with ((((rfl | rfl | rfl | rfl | rfl | rfl) | ⟨h, rfl⟩) | ⟨h, rfl⟩) | ⟨h, rfl⟩) | rfl | rfl <;>
       (refine ⟨by simp, ?_⟩; intro i hi; simp at hi; try (subst hi; simp_all))
   · intro hn; simp [hn]
   · rintro (h | ⟨h1, h2⟩)
@@ -367,18 +487,19 @@ theorem forkStep_state (s : AState) (rs : List SResp) :
   | cons r rs => cases r <;> rfl
 
 /-- the state in which the pre-fork part of `parentRun` ends (failed or not), and what is known
-    about it: everything obtained is owned, nothing has been closed or waited for, everything
+    about it: everything obtained is owned or was released by design, nothing else has been closed, nothing waited for, everything
     touched is owned, marks are real, pipes exist only for `Pipe` streams -/
 theorem prefork_facts (c : Cfg) (rs : List SResp) :
     let A := acquireAll (stagesOf c) (s0 c) rs
-    closedBy A.s.calls = [] ∧ hasWait A.s.calls = false ∧
-    (∀ f ∈ touched A.s.calls, f ∈ A.s.owned) ∧ (∀ f ∈ cfgFiles c, f ∈ A.s.owned) ∧ (∀ f ∈ A.s.got, f ∈ A.s.owned) ∧
+    closedBy A.s.calls = A.s.released ∧ hasWait A.s.calls = false ∧
+    (∀ f ∈ touched A.s.calls, f ∈ A.s.owned ∨ f ∈ A.s.released) ∧ (∀ f ∈ cfgFiles c, f ∈ A.s.owned ∨ f ∈ A.s.released) ∧
+    (∀ f ∈ A.s.got, f ∈ A.s.owned ∨ f ∈ A.s.released) ∧
     (∀ f ∈ pipeFds A.s.status, f ∈ A.s.got) ∧
     (∀ f ∈ A.s.marked, f ∈ cloexecd A.s.calls) ∧
     (∀ r w, A.s.pipes.pin = some (r, w) → w ∈ A.s.marked) ∧ (∀ r w, A.s.pipes.pout = some (r, w) → r ∈ A.s.marked) ∧
     (∀ r w, A.s.pipes.perr = some (r, w) → r ∈ A.s.marked) ∧ PipesOK c A.s ∧
     ((c.nul = true ∨ c.sin = .merge ∨ (c.sout = .merge ∧ c.serr = .merge)) → A.fail ≠ none ∧ hasFork A.s.calls = false) ∧
-    (∀ f ∈ A.s.owned, f ∈ cfgFiles c ∨ f ∈ A.s.got) := by
+    (∀ f ∈ A.s.owned, f ∈ cfgFiles c ∨ f ∈ A.s.got) ∧ (∀ f ∈ A.s.released, f ∈ A.s.got) := by
   intro A
   obtain ⟨pre, hst, hok, hnul, hinv⟩ := stagesOf_pre c
   have hB := acquireAll_inv c pre hok (s0 c) rs (init_ainv c) (by simp [PipesOK, s0])
@@ -387,17 +508,17 @@ theorem prefork_facts (c : Cfg) (rs : List SResp) :
     have hA : A = acquireAll pre (s0 c) rs := by
       show acquireAll (stagesOf c) (s0 c) rs = _
       rw [hst]; exact acquireAll_append_fail pre _ _ _ r hf
-    obtain ⟨⟨h1, h2, h3, h4, h5, h6, h7, h8, h9, h10, h11, h12, h13, h14, h15⟩, hp⟩ := hB
+    obtain ⟨⟨h1, h2, h3, h4, h5, h6, h7, h8, h9, h10, h11, h12, h13, h14, h15, h16, h17⟩, hp⟩ := hB
     rw [hA]
-    refine ⟨h1, h3, h4, h5, h6, h7, h11, h12, h13, h14, hp, fun _ => ⟨by rw [hf]; simp, h2⟩, h15⟩
+    refine ⟨h1, h3, h4, h5, h6, h7, h11, h12, h13, h14, hp, fun _ => ⟨by rw [hf]; simp, h2⟩, h15, h16⟩
   | none =>
     have hA : A = acquireAll [.forkStep] (acquireAll pre (s0 c) rs).s (acquireAll pre (s0 c) rs).rest := by
       show acquireAll (stagesOf c) (s0 c) rs = _
       rw [hst]; exact acquireAll_append_ok pre _ _ _ hf
-    obtain ⟨⟨h1, h2, h3, h4, h5, h6, h7, h8, h9, h10, h11, h12, h13, h14, h15⟩, hp⟩ := hB
+    obtain ⟨⟨h1, h2, h3, h4, h5, h6, h7, h8, h9, h10, h11, h12, h13, h14, h15, h16, h17⟩, hp⟩ := hB
     have hs := forkStep_state (acquireAll pre (s0 c) rs).s (acquireAll pre (s0 c) rs).rest
     rw [hA, hs]
-    refine ⟨by rw [closedBy_append, h1]; rfl, by rw [hasWait_append, h3]; rfl, ?_, h5, h6, h7, ?_, h12, h13, h14, hp, ?_, h15⟩
+    refine ⟨by rw [closedBy_append, h1]; simp [closedBy], by rw [hasWait_append, h3]; rfl, ?_, h5, h6, h7, ?_, h12, h13, h14, hp, ?_, h15, h16⟩
     · intro f hf'; simp only [touched_append, List.mem_append] at hf'
       rcases hf' with hf' | hf'
       · exact h4 f hf'
